@@ -211,12 +211,21 @@ pub fn run_check(spec: &PropSpec, tier: &str, base_seed: u64, threads: usize) ->
     let wall_limit = if tier == "thorough" { 900.0 } else { 240.0 };
     let mut merged = BatchOut::default();
     let mut fam_runs: BTreeMap<&'static str, u64> = BTreeMap::new();
+    // (share 0: a family of few, long runs - 16 in the thorough tier, two in the quick tier; they run on
+    // threads of their own next to the other families, because one run takes seconds)
+    let mut long_jobs = Vec::new();
     for (fam, share) in &spec.families {
-        // (share 0: a family of few, long runs - a fixed number in the thorough tier, none in the quick one)
-        let runs = if *share == 0 { if tier == "thorough" { 16 } else { 0 } } else { (total_runs * u64::from(*share) / 100).max(1) };
-        if runs == 0 {
+        if *share == 0 {
+            let (id, fam, nt) = (spec.id, *fam, spec.nontrivial);
+            let runs = if tier == "thorough" { 16 } else { 2 };
+            long_jobs.push((fam, std::thread::spawn(move || crate::batch::run_batch_auto(id, fam, base_seed, runs, runs as usize, wall_limit, nt))));
+        }
+    }
+    for (fam, share) in &spec.families {
+        if *share == 0 {
             continue;
         }
+        let runs = (total_runs * u64::from(*share) / 100).max(1);
         let o = match crate::batch::run_batch_auto(spec.id, *fam, base_seed, runs, threads, wall_limit, spec.nontrivial) {
             Ok(o) => o,
             Err(e) => {
@@ -226,6 +235,23 @@ pub fn run_check(spec: &PropSpec, tier: &str, base_seed: u64, threads: usize) ->
         };
         *fam_runs.entry(fam.name()).or_insert(0) += o.evaluations;
         crate::batch::merge(&mut merged, o);
+    }
+
+    for (fam, job) in long_jobs {
+        match job.join() {
+            Ok(Ok(o)) => {
+                *fam_runs.entry(fam.name()).or_insert(0) += o.evaluations;
+                crate::batch::merge(&mut merged, o);
+            }
+            Ok(Err(e)) => {
+                println!("HARNESS-ERROR {e}");
+                return CheckResult { exit: 2 };
+            }
+            Err(_) => {
+                println!("HARNESS-ERROR long-history batch panicked");
+                return CheckResult { exit: 2 };
+            }
+        }
     }
 
     // triage
